@@ -103,8 +103,17 @@ class CallMixin(ExprMixin):
                     return self.ok(self.bool_(z3.Or(*terms) if terms else z3.BoolVal(False)), st)
         js, rngs, pats = [], [], []
         s2 = st.fork()
-        for g in gen.generators:
-            j = z3.Int(fresh_name("q"))
+        self._qdepth = getattr(self, "_qdepth", 0) + 1
+        try:
+            return self._quantifier_body(which, gen, st, s2, js, rngs, pats)
+        finally:
+            self._qdepth -= 1
+
+    def _quantifier_body(self, which, gen, st, s2, js, rngs, pats):
+        for gi, g in enumerate(gen.generators):
+            # bound variables get deterministic names (by nesting depth and position): equal quantified
+            # formulas are then identical terms, so repeated unfoldings do not pile up copies
+            j = z3.Int(f"q!{self._qdepth}.{gi}")
             itv = self.ev1(g.iter, s2)
             it = self.as_iterable(itv, s2)
             n = self.it_len(it)
@@ -144,7 +153,14 @@ class CallMixin(ExprMixin):
         return out
 
     def quant_over_seq(self, which, g, elt, seqterm, st):
-        j = z3.Int(fresh_name("q"))
+        self._qdepth = getattr(self, "_qdepth", 0) + 1
+        try:
+            return self._quant_over_seq(which, g, elt, seqterm, st)
+        finally:
+            self._qdepth -= 1
+
+    def _quant_over_seq(self, which, g, elt, seqterm, st):
+        j = z3.Int(f"qs!{self._qdepth}")
         s2 = self.bind_target(g.target, T("V", seqterm[j]), st.fork())
         body = self.truthy(self.ev1(elt, s2))
         rng = z3.And(j >= 0, j < z3.Length(seqterm))
@@ -272,7 +288,7 @@ class CallMixin(ExprMixin):
             return self.seq_of_terms([self.box(x) for x in it.parts[0].items])
         n = self.it_len(it)
         r = z3.Const(fresh_name("mat"), self.U.SeqV)
-        j = z3.Int(fresh_name("mj"))
+        j = z3.Int("mj!")
         self.axioms.append(z3.Length(r) == n)
         self.axioms.append(self.forall([j], z3.Implies(z3.And(0 <= j, j < n), r[j] == self.box(self.it_elem(it, j))), [r[j]]))
         return r
@@ -666,6 +682,17 @@ class CallMixin(ExprMixin):
         if is_method:
             args = [recv] + args
         if any(isinstance(x, Star) for x in args):
+            # f(*xs) against `def f(self, *args)`: the sequence itself is the vararg tuple
+            fixed = [x for x in args if not isinstance(x, Star)]
+            stars = [x for x in args if isinstance(x, Star)]
+            if a.vararg and len(stars) == 1 and len(fixed) == len(pos) and isinstance(args[-1], Star):
+                for name, val in zip(pos, fixed):
+                    env[name] = val
+                env[a.vararg.arg] = T("tuple", self.seq_term(stars[0].val))
+                for p, d in zip(a.kwonlyargs, a.kw_defaults):
+                    if d is not None:
+                        env[p.arg] = self.ev1(d, State(mode="spec"))
+                return env
             raise Unsupported("star-args of unknown length")
         for name, val in zip(pos, args):
             env[name] = val
@@ -727,8 +754,13 @@ class CallMixin(ExprMixin):
         for r in roots:
             cond = self.isinstance_term(recv, Cls(r))
             covered.append(cond)
+            possible = st.ghost.get(("in", t.get_id()))
+            known_c = st.ghost.get(("is", t.get_id()))
+            names_r = {"C_" + c for c in src.subclasses(r)} | ({"VNodeList"} if r in LISTLIKE else set()) | ({SINGLETONS[r]} if r in SINGLETONS else set())
+            if (possible and not (possible & names_r)) or (known_c and known_c not in names_r):
+                continue  # the receiver's possible classes (known syntactically) exclude this method's classes
             s1 = st.fork(cond)
-            if not self.feasible(s1):
+            if not self.feasible(s1, careful=True):
                 continue
             # most specific class with its own registered contract that the path condition pins down
             pick = r
@@ -737,7 +769,11 @@ class CallMixin(ExprMixin):
                     if not self.feasible(s1, z3.Not(self.isinstance_term(recv, Cls(c)))):
                         if pick == r or pick in src.mro(c):
                             pick = c
-            out.extend(self.call_contract(f"{src.classes[pick].module}:{pick}.{name}", recv, args, kwargs, s1))
+            try:
+                out.extend(self.call_contract(f"{src.classes[pick].module}:{pick}.{name}", recv, args, kwargs, s1))
+            except Unsupported as why:
+                # this receiver class cannot be handled: it must then be impossible here
+                self.oblige(st, f"safety:dispatch:{pick}.{name}", z3.Not(cond), f"receiver could be a {pick}: {why}")
         # builtin kinds
         for kinds in self.builtin_method_kinds(name):
             cond = self.is_kind(recv, kinds)
